@@ -17,6 +17,7 @@ from sim import simset
 from sim.sched import InvalidCase, Violation
 
 ID = "C07"
+NEEDS_ZYGOTE = True          # only used if a change makes the distance functions run joblib workers in processes
 TITLE = "Bottleneck and Wasserstein obey the metric and invariance laws at any size"
 CASE_TIMEOUT_S = 300.0
 PLAN = {
@@ -189,6 +190,11 @@ def _scale(*ds):
 
 
 def run_case(case, sched):
+    with mc.parallel_world(sched, case):
+        return _run_case(case, sched)
+
+
+def _run_case(case, sched):
     inp, cfg = case["inputs"], case["config"]
     X, Y, Z = inp["X"], inp["Y"], inp["Z"]
     for d in (X, Y, Z, inp["diag"]):
